@@ -160,6 +160,11 @@ def gp_files(rundir):
 
 FAKE_SCP = """#!/bin/bash
 # stands in for scp: copies the run directory next to the play
+if [ "${VERIF_SCP_FAIL:-}" = signal ]; then
+  # the upload tool (and the shell that runs it, when that shell did not exec it) dies from a signal
+  case "$(cat /proc/$PPID/comm 2>/dev/null)" in bash|sh|dash) kill -KILL $PPID;; esac
+  kill -KILL $$
+fi
 if [ -n "${VERIF_SCP_FAIL:-}" ]; then echo "scp: connection refused" >&2; exit 1; fi
 src="$2"
 mkdir -p "$VERIF_SCP_DEST"
@@ -319,11 +324,11 @@ def run(tier, seed):
         with open(os.path.join(bindir, "scp"), "w") as f:
             f.write(FAKE_SCP)
         os.chmod(os.path.join(bindir, "scp"), 0o755)
-        for n, (k, fouled, fail) in enumerate([(k, fo, fa) for k in (False, True) for fo in (False, True) for fa in (False, True)]):
+        for n, (k, fouled, fail) in enumerate([(k, fo, fa) for k in (False, True) for fo in (False, True) for fa in (False, "1", "signal")]):
             dest = os.path.join(scratch, "uploaded-%d" % n)
             env = {"PATH": bindir + ":" + os.environ["PATH"], "VERIF_SCP_DEST": dest}
             if fail:
-                env["VERIF_SCP_FAIL"] = "1"
+                env["VERIF_SCP_FAIL"] = fail
             args = (["-k"] if k else []) + ["--upload-url", "scp://host/results"]
             text = PLAY % {"first": "ok", "last": "bad" if fouled else "ok", "pred": ">= 0", "repeat": ""}
             plays.append(e2e.Play(text, args=args, outdir_arg="out", timeout=60, keep=True, env=env))
@@ -480,6 +485,6 @@ def run(tier, seed):
     impl.close()
     model.close()
     return rep.finish("cd lean && lake build ShkModel.Props.C12 && #print axioms",
-                      "paths: fixed corner cases + random component strings (empty, ., .., names; absolute/relative; trailing slash); prepareDirs: 12 -o shape families from a scratch cwd incl. no-subdir; end-to-end: the matrix {-k,--clear,--disable-plots,-q} x {fouled,clean} x {out,a/b/out,absolute,.} x {repeat,none} (complete in thorough, a seed-dependent covering quarter in quick) + 8 upload rows",
+                      "paths: fixed corner cases + random component strings (empty, ., .., names; absolute/relative; trailing slash); prepareDirs: 12 -o shape families from a scratch cwd incl. no-subdir; end-to-end: the matrix {-k,--clear,--disable-plots,-q} x {fouled,clean} x {out,a/b/out,absolute,.} x {repeat,none} (complete in thorough, a seed-dependent covering quarter in quick) + 12 upload rows (upload succeeds / exits 1 / is killed by a signal)",
                       exhaustive=(tier == "thorough"),
                       explanation="claim level: partial. Theorems cover the path algebra, the link resolution rule, the deferred steps of run() and the range normalisation as models; filesystem, kernel path walk and bash are trusted and exercised end-to-end (exhaustive refers to the flag matrix of the property's quantifier, run completely in the thorough tier)")
